@@ -155,7 +155,7 @@ func (g *Generator) generateMockMethod(
 	gf.P()
 
 	// Fill response fields
-	g.generateMockFieldAssignments(gf, method.Output, "resp")
+	g.generateMockFieldAssignments(gf, method.Output, "resp", map[string]bool{})
 
 	gf.P("return resp, nil")
 	gf.P("}")
@@ -169,7 +169,16 @@ func (g *Generator) generateMockFieldAssignments(
 	gf *protogen.GeneratedFile,
 	message *protogen.Message,
 	varName string,
+	visiting map[string]bool,
 ) {
+	// A message type that contains itself (directly or through other messages) would be
+	// expanded forever: expand each type only once along a nesting chain.
+	key := string(message.Desc.FullName())
+	if visiting[key] {
+		return
+	}
+	visiting[key] = true
+
 	messageName := string(message.Desc.Name())
 
 	for _, field := range message.Fields {
@@ -199,12 +208,12 @@ func (g *Generator) generateMockFieldAssignments(
 			switch {
 			case field.Desc.IsMap():
 				// Handle map fields
-				g.generateMockMapFieldAssignment(gf, field, varName)
+				g.generateMockMapFieldAssignment(gf, field, varName, visiting)
 			case field.Desc.IsList():
 				gf.P("// TODO: Handle repeated message field ", fieldName)
 			default:
 				gf.P(varName, ".", fieldName, " = &", field.Message.GoIdent, "{}")
-				g.generateMockFieldAssignments(gf, field.Message, varName+"."+fieldName)
+				g.generateMockFieldAssignments(gf, field.Message, varName+"."+fieldName, visiting)
 			}
 		case protoreflect.EnumKind,
 			protoreflect.Sint32Kind,
@@ -222,6 +231,8 @@ func (g *Generator) generateMockFieldAssignments(
 			gf.P("// TODO: Handle field ", fieldName, " of type ", field.Desc.Kind())
 		}
 	}
+
+	delete(visiting, key)
 }
 
 // generateMockMapFieldAssignment generates code to populate a map field with sample data.
@@ -229,6 +240,7 @@ func (g *Generator) generateMockMapFieldAssignment(
 	gf *protogen.GeneratedFile,
 	field *protogen.Field,
 	varName string,
+	visiting map[string]bool,
 ) {
 	fieldName := field.GoName
 
@@ -258,7 +270,7 @@ func (g *Generator) generateMockMapFieldAssignment(
 		gf.P(varName, ".", fieldName, "[", sampleKey, "] = &", valueField.Message.GoIdent, "{}")
 		// Populate the value message fields
 		mapValueVar := varName + "." + fieldName + "[" + sampleKey + "]"
-		g.generateMockFieldAssignments(gf, valueField.Message, mapValueVar)
+		g.generateMockFieldAssignments(gf, valueField.Message, mapValueVar, visiting)
 	} else {
 		// Value is a scalar type
 		valueType := g.getGoTypeScalar(valueField)
